@@ -197,6 +197,22 @@ func (c *Check) Violation(key string, payload map[string]interface{}) {
 	}
 }
 
+// Known reports whether key is a recorded (status "known") finding; the first use prints its KNOWN-FINDING line.
+func (c *Check) Known(key string) bool {
+	c.mu.Lock()
+	defer c.mu.Unlock()
+	for _, f := range c.findings {
+		if f.Status == "known" && f.Key == key {
+			if !c.known[key] {
+				c.known[key] = true
+				fmt.Printf("KNOWN-FINDING: property=%s %s\n", c.ID, f.What)
+			}
+			return true
+		}
+	}
+	return false
+}
+
 func (c *Check) Violations() int { c.mu.Lock(); defer c.mu.Unlock(); return c.viol }
 
 // Finish writes the evidence file and returns the exit code.
